@@ -104,7 +104,7 @@ func (w *World) buildDIDDoc(keys, services []any, aka []string) (*docdid.Doc, ma
 	var isvcs []any
 	for _, s := range services {
 		sm := s.(map[string]any)
-		d.Service = append(d.Service, *toClientService(sm))
+		d.Service = append(d.Service, *toClientService(sm, nil))
 		isvcs = append(isvcs, sm)
 	}
 	if len(isvcs) > 0 {
@@ -349,6 +349,15 @@ func (w *World) execLongForm(stepIdx int, st *Step) {
 		mustReject("did-url-tail", long+tail)
 	}
 	mustReject("did-url-head", " "+long)
+	// the handler's own namespace (with and without its colon) spliced into the DID after the leading one: a parser that removes
+	// or searches for the namespace anywhere in the string sees the genuine DID again
+	for _, at := range []int{len(ns) + 2, len(ns) + 1 + len(suffix)/2, len(short), len(short) + 2, len(short) + 1 + len(state)/2, len(long) - 1} {
+		if at <= len(ns)+1 || at > len(long) {
+			continue
+		}
+		mustReject("namespace-spliced", long[:at]+ns+":"+long[at:])
+		mustReject("namespace-spliced", long[:at]+ns+long[at:])
+	}
 	mustReject("short-form", short)
 	mustReject("suffix-swapped", ns+":"+ref.HashBytes(ref.SHA256, []byte("another"))+":"+state)
 	mustReject("extra-segment", short+":extra:"+state)
